@@ -1578,7 +1578,7 @@ class Walker:
         kwargs = {k.arg: self.ev(k.value, st) for k in e.keywords}
         if callee is not None:
             return self.call_resolved(e, st, callee, args, kwargs)
-        ev = self.emit("call", e, st, callee=None, name=d, args=args, kwargs=kwargs, result=None)
+        ev = self.emit("call", e, st, callee=None, name=d, args=args, kwargs=kwargs, result=None, envsnap=(dict(st.env) if isinstance(e.func, ast.Name) and e.func.id in st.env else None))
         # unresolved calls may write arrays passed to np.copyto
         for r in self.effects.call_writes(self.func, e):
             st.memver[r] = st.memver.get(r, 0) + 1
